@@ -225,7 +225,7 @@ def norm_cont_rule(repo, R):
 def run(repo, R):
     R.rule("PITFALL", "no result buffer typed after an input, no real cast of a transformation, no unbuffered accumulation / first-occurrence scatter through np.unique")
     from ..pitfalls import report as _pitfalls
-    _pitfalls(repo, R, ['gbasis.integrals.overlap', 'gbasis.integrals.overlap_asymm', 'gbasis.integrals._moment_int'])
+    _pitfalls(repo, R, ['gbasis.integrals.overlap', 'gbasis.integrals.overlap_asymm', 'gbasis.integrals._moment_int'], single_row_tables=True)
     R.rule("INPUTS", "the public wrapper uses its parameters as given: no path replaces one by a filtered/re-ordered/scaled/defaulted copy")
     R.rule("DISPATCH", "the wrapper assembles Cartesian, spherical, mixed and transformed results through the four assembly routes, same keywords on each")
     from ..flow import check_wrapper_inputs, check_wrapper_dispatch
